@@ -251,7 +251,7 @@ impl Prop for C05 {
         }
     }
 
-    fn post_merge(&self, _tier: Tier, outdir: &str, nshards: u32) -> (Vec<Fail>, Value) {
+    fn post_merge(&self, _tier: Tier, _seed: u64, outdir: &str, nshards: u32) -> (Vec<Fail>, Value) {
         // cross-shard injectivity: (hash, key) pairs of all shards, sorted by hash
         let mut all: Vec<(u64, u64)> = Vec::new();
         for sh in 0..nshards {
